@@ -1156,6 +1156,36 @@ fn drive_c17(sc: &E2Scenario, rep: &mut RunReport) {
             rep.violate(&["C17"], "C17.2-rerun-files-differ", format!("second run changes {:?}", changed_paths(&gtree, &after2)));
         }
         rep.probe("rerun_on_generated_tree");
+        // 2b. leftovers of an earlier, different version of the project at the same paths
+        //     (longer files, other bytes) must not shine through
+        {
+            let mut stale = gtree.clone();
+            let mut rl = Rng::new(sc.faults.sample_seed ^ 0x57a1e);
+            for (pth, b) in stale.iter_mut() {
+                if tree0.contains_key(pth) {
+                    continue;
+                }
+                match rl.below(3) {
+                    0 => b.extend_from_slice("\n// leftover of an earlier, larger version\n".repeat(1 + rl.below(40)).as_bytes()),
+                    1 => {
+                        for x in b.iter_mut() {
+                            *x = b'#';
+                        }
+                    }
+                    _ => b.truncate(b.len() / 2),
+                }
+            }
+            sandbox::reset_tree(&stale);
+            let (r4, after4) = rn.on_tree(cmds, "json", sc.hash_seeds[0], Some(sc.readdir_seeds[0]), &[]);
+            if r4.exit != g.exit || r4.stdout != g.stdout || after4 != gtree {
+                rep.violate(
+                    &["C17", "C18"],
+                    "C17.2-stale-outputs-shine-through",
+                    format!("generate over leftovers of an earlier version at the output paths: exit {} files differing from a clean generation: {:?}", r4.exit, changed_paths(&gtree, &after4)),
+                );
+            }
+            rep.probe("generate_over_stale_outputs");
+        }
         // 3. crash at a sampled tree call, then a fault-free run converges to golden
         let n_calls = g.trace.len();
         if n_calls > 0 {
